@@ -442,6 +442,19 @@ impl Writer {
                 )
             })?;
 
+            // same limit as Block::write: a header that does not fit (very long topic name) is an
+            // error, not a slice out of range; nothing has been submitted yet
+            if meta_bytes.len() > PREFIX_META_SIZE - 2 {
+                *cur_offset = revert_info.original_offset;
+                for block_id in revert_info.allocated_block_ids.iter() {
+                    FileStateTracker::set_block_unlocked(*block_id as usize);
+                }
+                return Err(std::io::Error::new(
+                    std::io::ErrorKind::InvalidData,
+                    "metadata too large",
+                ));
+            }
+
             let mut meta_buffer = vec![0u8; PREFIX_META_SIZE];
             meta_buffer[0] = (meta_bytes.len() & 0xFF) as u8;
             meta_buffer[1] = ((meta_bytes.len() >> 8) & 0xFF) as u8;
